@@ -105,11 +105,15 @@ def judge(case, r):
         # token opening its body
         if a in (b"return", b"case") or rule in ("sp_macro", "sp_macro_func"):
             would_fuse = True
+        # digraph spellings ('<:' '%:' ':>' '%>' '<%'): pre-C++11 lexers read '<::' as '<:' ':' - uncrustify keeps the input there
+        if (a[-1:] + b[:1]) in (b"<:", b"%:", b":>", b"%>", b"<%"):
+            would_fuse = True
         w0 = {"option": rule, "configured": NAME[conf], "first": f[10], "second": f[11], "lang": lang}
         ctx_txt = "%s | %s  (input line %d col %d)" % (a.decode("latin-1"), b.decode("latin-1"), l1, c1)
         # (1) attribution
         if av_raw != conf:
-            if not (av_raw == (conf | 1) and (flag or would_fuse)):
+            # in an exempt situation ADD may be set, or a configured Remove may be softened to "keep the input"
+            if not ((av_raw == (conf | 1) or (av_raw == IARF["ignore"] and conf == IARF["remove"])) and (flag or would_fuse)):
                 out.append(dict(w0, clause="value-of-another-option-applied", returned=NAME.get(av_raw, str(av_raw)), _pair=ctx_txt))
                 continue
         stats["attributed"] += 1
